@@ -592,9 +592,145 @@ static void run_lengths(void)
 	xp_state(hash_mix((uint64_t)L, (uint64_t)split));
 }
 
+
+/* ---- section 3: input that is already there when the daemon accepts the connection -------------------------------------
+ * The same byte stream (a whole short life of a connection) reaches the daemon in four timings: completely queued before the
+ * daemon has accepted the connection (with or without the client's end of stream in that same batch), after the accept in one
+ * piece (the reference), and byte by byte.  What the daemon writes on that connection, whether it closes it, and what a
+ * witness connection sees afterwards must not depend on the timing. */
+struct life {
+	const char *name;
+	int endpoint; /* 0 raw tcp, 1 unix socket, 2 http/websocket */
+	int nparts;
+	const char *parts[5]; /* "H" = valid upgrade request; "T:<json>" = text frame / raw message; "C" = ws close 1000; "P" = ws ping; anything else = literal bytes */
+};
+static const struct life LIVES[] = {
+    {"raw: one request", 0, 1, {"T:{\"id\":1,\"method\":\"info\"}"}},
+    {"raw: add then a request that is refused", 0, 2, {"T:{\"id\":1,\"method\":\"add\",\"params\":{\"path\":\"life\",\"value\":1}}", "T:{\"id\":2,\"method\":\"nosuch\"}"}},
+    {"raw: invalid JSON", 0, 1, {"T:{\"id\":1,\"method\":"}},
+    {"raw: oversize length prefix", 0, 1, {"\x7f\xff\xff\xff"}},
+    {"raw: nothing at all", 0, 0, {NULL}},
+    {"unix: one request", 1, 1, {"T:{\"id\":1,\"method\":\"info\"}"}},
+    {"unix: invalid JSON", 1, 1, {"T:[1,"}},
+    {"http: unknown URL", 2, 1, {"GET /nothing HTTP/1.1\r\nHost: x\r\n\r\n"}},
+    {"http: malformed start line", 2, 1, {"GET /api/jet/ HTTX\r\n\r\n"}},
+    {"http: POST", 2, 1, {"POST /api/jet/ HTTP/1.1\r\nHost: x\r\nContent-Length: 0\r\n\r\n"}},
+    {"http: nothing at all", 2, 0, {NULL}},
+    {"http: half a request line", 2, 1, {"GET /api/j"}},
+    {"ws: handshake only", 2, 1, {"H"}},
+    {"ws: handshake, request, close", 2, 3, {"H", "T:{\"id\":1,\"method\":\"info\"}", "C"}},
+    {"ws: handshake, add, ping, close", 2, 4, {"H", "T:{\"id\":1,\"method\":\"add\",\"params\":{\"path\":\"life\",\"value\":1}}", "P", "C"}},
+    {"ws: handshake and close", 2, 2, {"H", "C"}},
+    {"ws: handshake and an unmasked frame", 2, 2, {"H", "\x81\x02{}"}},
+    {"ws: handshake and invalid JSON", 2, 2, {"H", "T:{\"id\":"}},
+};
+#define NLIVES ((int)(sizeof(LIVES) / sizeof(LIVES[0])))
+
+static void run_accept_time(void)
+{
+	int li = xp_choose(NLIVES, XP_SCENARIO, "connection-life");
+	int timing = xp_choose(5, XP_SCENARIO, "timing"); /* 0 reference: after the accept, one piece per part; 1 all queued before the accept; 2 all + end of stream before the accept; 3 after the accept, byte by byte; 4 first part before the accept, the rest after */
+	int fin_at_end = xp_choose(2, XP_SCENARIO, "client-closes-at-the-end");
+	static const char *const TIMING[] = {"after the accept, part by part", "everything queued before the daemon accepts", "everything and the end of stream queued before the daemon accepts", "after the accept, byte by byte", "first part before the accept, the rest after"};
+	const struct life *L = &LIVES[li];
+	if (timing == 2 && !fin_at_end) {
+		xp_end_run();
+	}
+	if (timing == 4 && L->nparts < 2) {
+		xp_end_run();
+	}
+	int twin = xp_twin_begin();
+	if (twin) {
+		timing = 0;
+	}
+	struct sim_opts o = {0};
+	jx_boot(&o);
+	int W = jx_open(CL_RAW);
+	jx_sendf(W, "{\"id\":\"w0\",\"method\":\"fetch\",\"params\":{\"id\":\"wf\"}}");
+	jx_settle();
+	enum cl_kind kind = L->endpoint == 2 ? CL_WS : CL_RAW;
+	int V = cl_open(kind, L->endpoint == 2 ? ROLE_HTTP : L->endpoint == 1 ? ROLE_UDS : ROLE_JET, ORG_DEFAULT);
+	if (timing == 0 || timing == 3) {
+		jx_settle(); /* accepted, nothing to read yet */
+	}
+	for (int i = 0; i < L->nparts; i++) {
+		struct bytebuf b = {0};
+		const char *t = L->parts[i];
+		if (strcmp(t, "H") == 0) {
+			bb_append(&b, CL_WS_UPGRADE_REQUEST, strlen(CL_WS_UPGRADE_REQUEST));
+		} else if (strncmp(t, "T:", 2) == 0) {
+			if (kind == CL_WS) {
+				cl_frame_ws(&b, 1, true, 0, true, 0, t + 2, strlen(t + 2));
+			} else {
+				cl_frame_raw(&b, t + 2, strlen(t + 2));
+			}
+		} else if (strcmp(t, "C") == 0) {
+			uint8_t code[2] = {0x03, 0xe8};
+			cl_frame_ws(&b, 8, true, 0, true, 0, code, 2);
+		} else if (strcmp(t, "P") == 0) {
+			cl_frame_ws(&b, 9, true, 0, true, 0, "hi", 2);
+		} else {
+			bb_append(&b, t, strlen(t));
+		}
+		if (timing == 3) {
+			for (size_t k = 0; k < b.len; k++) {
+				sim_client_send(V, b.p + k, 1);
+				jx_settle();
+			}
+		} else {
+			sim_client_send(V, b.p, b.len);
+			if (timing == 0 || timing == 4) {
+				jx_settle();
+			}
+		}
+		bb_free(&b);
+	}
+	if (timing == 1) {
+		jx_settle();
+	}
+	if (fin_at_end && !sim_conn_client_gone(V)) {
+		sim_client_fin(V);
+	}
+	jx_settle();
+	jx_expire_all_timers(2);
+	/* the witness: a fresh add is seen once, get lists what exists */
+	jx_sendf(W, "{\"id\":\"w1\",\"method\":\"add\",\"params\":{\"path\":\"witness\",\"value\":7}}");
+	jx_settle();
+	jx_sendf(W, "{\"id\":\"w2\",\"method\":\"get\",\"params\":{}}");
+	jx_settle();
+	struct bytebuf mine = {0}, other = {0};
+	bb_printf(&mine, "accepted=%d closed-by-daemon=%d daemon-exited=%d\n", sim_conn_accepted(V), sim_conn_closed_by_daemon(V), sim_daemon_exited());
+	const struct bytebuf *out = sim_conn_output(V);
+	bb_printf(&mine, "-- %zu byte(s) written to the connection\n", out->len);
+	for (size_t k = 0; k < out->len; k++) {
+		bb_printf(&mine, "%02x", out->p[k]);
+	}
+	bb_printf(&mine, "\n-- witness\n");
+	cl_normalised_transcript(W, &mine, 0);
+	if (twin) {
+		xp_twin_end(&mine, NULL);
+	}
+	xp_twin_end(&mine, &other);
+	if (mine.len != other.len || memcmp(mine.p, other.p, mine.len) != 0) {
+		xp_logf("---- %s ----\n%s\n---- reference: %s ----\n%s", TIMING[timing], (char *)mine.p, TIMING[0], (char *)other.p);
+		char key[200];
+		snprintf(key, sizeof(key), "accept-time-delivery-changes-behaviour:%s", L->endpoint == 2 ? "http" : L->endpoint == 1 ? "unix" : "raw");
+		xp_fail(key, "connection life '%s'%s: delivered '%s' the daemon behaves differently than when the same bytes arrive after the accept, part by part", L->name, fin_at_end ? " (client closes at the end)" : "", TIMING[timing]);
+	}
+	jx_close_all();
+	jx_check_hygiene("hygiene:");
+	xp_nontrivial();
+	xp_transition();
+	xp_outcome(hash64(mine.p, mine.len, 4));
+	xp_state(hash_mix((uint64_t)li * 100 + (uint64_t)timing * 2 + (uint64_t)fin_at_end, 77));
+}
+
 static void run(void)
 {
 	switch (xp_param("section", 0)) {
+	case 3:
+		run_accept_time();
+		break;
 	case 1:
 		run_own_bytes();
 		break;
@@ -610,6 +746,6 @@ const struct driver drv_c09 = {
     .name = "c09",
     .property = "C09",
     .run = run,
-    .rule = "section 0: 17 multi-connection sessions (two of them with messages of 258, 339 and the maximal 512 / 504 bytes; raw and websocket, fetch, routed requests, batches, errors, zero and oversize length prefixes, ping/pong, owner leaving, timeout) x delivery schedules {every single split point of every message and of every websocket upgrade request, with and without a would-block in between; all single bytes (queued at once / one readiness event per byte); every coalescing of runs of consecutive messages of one connection; a proper prefix of every length of the next message of another connection riding in the same batch in both dispatch orders; the client's end of stream arriving in the same batch as its last message; (thorough) pairs of split points}, each compared with the one-chunk-per-message baseline run as a twin; section 1: 13 truncated / over-long message shapes x 2 transports x 7 fresh-memory fill bytes x 6 residues of an earlier long message, compared with a reference run; section 2: length prefixes 0, max-1, max, max+1, 2^31, 2^32-1, 65536 x split positions of the prefix; non-trivial = applicable schedules",
+    .rule = "section 0: 17 multi-connection sessions (two of them with messages of 258, 339 and the maximal 512 / 504 bytes; raw and websocket, fetch, routed requests, batches, errors, zero and oversize length prefixes, ping/pong, owner leaving, timeout) x delivery schedules {every single split point of every message and of every websocket upgrade request, with and without a would-block in between; all single bytes (queued at once / one readiness event per byte); every coalescing of runs of consecutive messages of one connection; a proper prefix of every length of the next message of another connection riding in the same batch in both dispatch orders; the client's end of stream arriving in the same batch as its last message; (thorough) pairs of split points}, each compared with the one-chunk-per-message baseline run as a twin; section 1: 13 truncated / over-long message shapes x 2 transports x 7 fresh-memory fill bytes x 6 residues of an earlier long message, compared with a reference run; section 2: length prefixes 0, max-1, max, max+1, 2^31, 2^32-1, 65536 x split positions of the prefix; section 3: 18 whole connection lives (raw, unix socket, plain HTTP, websocket; valid, refused, malformed, empty) x {client closes at the end or not} x 4 timings relative to the accept (everything queued before the daemon accepts, also with the end of stream; byte by byte after the accept; first part before and the rest after) compared with 'after the accept, part by part': bytes written to the connection, closed or not, and a witness connection's view; non-trivial = applicable schedules",
     .assumptions = "schedule parameters that do not denote a schedule of the chosen session (split position beyond the message) end the run at once and are not counted|coalescing is only applied to messages that are adjacent in the session, so the completion order of whole messages is preserved",
 };
